@@ -13,14 +13,16 @@ B(s) == CASE s = "Name" -> <<78, 97, 109, 101>> [] s = "X" -> <<88>> [] s = "x" 
           [] s = "any" -> <<97, 110, 121>> [] s = "" -> <<>> [] s = "s" -> <<115>> [] s = "name" -> <<110, 97, 109, 101>>
           [] s = "W" -> <<87>> [] s = "w" -> <<119>> [] s = "k" -> <<107>> [] s = "srv" -> <<115, 114, 118>> [] s = "Srv" -> <<83, 114, 118>>
           [] s = "f_oo_bar" -> <<102, 95, 111, 111, 95, 98, 97, 114>> [] s = "P" -> <<80>> [] s = "p" -> <<112>>
-          [] s = "T" -> <<84>> [] s = "Emb" -> <<69, 109, 98>> [] s = "inner.v1.2" -> <<105, 110, 110, 101, 114, 46, 118, 49, 46, 50>> [] s = "_x" -> <<95, 120>> [] s = "X_" -> <<88, 95>> [] s = "_foo__bar_" -> <<95, 102, 111, 111, 95, 95, 98, 97, 114, 95>>
+          [] s = "T" -> <<84>> [] s = "Emb" -> <<69, 109, 98>> [] s = "Flags" -> <<70, 108, 97, 103, 115>> [] s = "flags" -> <<102, 108, 97, 103, 115>> [] s = "z" -> <<122>> [] s = "inner.v1.2" -> <<105, 110, 110, 101, 114, 46, 118, 49, 46, 50>> [] s = "_x" -> <<95, 120>> [] s = "X_" -> <<88, 95>> [] s = "_foo__bar_" -> <<95, 102, 111, 111, 95, 95, 98, 97, 114, 95>>
           [] s = "Port" -> <<80, 111, 114, 116>> [] s = "Listen" -> <<76, 105, 115, 116, 101, 110>> [] s = "listen" -> <<108, 105, 115, 116, 101, 110>>
           [] s = "port" -> <<112, 111, 114, 116>> [] s = "conf" -> <<99, 111, 110, 102>> [] s = "Conf" -> <<67, 111, 110, 102>>
+SubE == [tname |-> <<>>, fields |-> <<>>]                                  \* a struct without fields (zero size)
 SubA == [tname |-> <<>>, fields |-> << Field(B("X"), <<>>, "int", NoT) >>]
 SubB == [tname |-> <<>>, fields |-> << Field(B("Name"), <<>>, "string", NoT), Field(B("X"), <<>>, "int", NoT) >>]
 \* the field pool: supported kinds, colliding names, tags (two fields sharing one tag), unexported, interface, nested structs
 \* with and without Name, and the unsupported kinds of C15 (pointer, slice, map, array field; embedded struct)
-Pool == << Field(B("Name"), <<>>, "string", NoT), Field(B("Name"), <<>>, "int", NoT), Field(B("X"), <<>>, "int", NoT),
+Pool == << Field(B("Flags"), <<>>, "struct", SubE),            \* first, so that it can stand in front of any other field
+           Field(B("Name"), <<>>, "string", NoT), Field(B("Name"), <<>>, "int", NoT), Field(B("X"), <<>>, "int", NoT),
            Field(B("X"), <<>>, "string", NoT), Field(B("x"), <<>>, "int", NoT), Field(B("FooBar"), <<>>, "int", NoT),
            Field(B("Foobar"), <<>>, "int", NoT), Field(B("Foo_Bar"), <<>>, "int", NoT), Field(B("Y"), B("x"), "int", NoT),
            Field(B("Z"), B("foo_bar"), "string", NoT), Field(B("W"), B("x"), "int", NoT), Field(B("Any"), <<>>, "any", NoT),
@@ -29,11 +31,12 @@ Pool == << Field(B("Name"), <<>>, "string", NoT), Field(B("Name"), <<>>, "int", 
            Field(B("P"), <<>>, "ptrint", NoT), Field(B("P"), <<>>, "sliceint", NoT), Field(B("P"), <<>>, "mapsi", NoT),
            Field(B("P"), <<>>, "arrint", NoT), Field(B("Inner"), <<>>, "ptrstruct", NoT), Field(B("Emb"), <<>>, "embedded", NoT),
            Field(B("Port"), B("listen"), "int", NoT), Field(B("Listen"), <<>>, "int", NoT), Field(B("Port"), <<>>, "int", NoT),
-           Field(B("X"), <<>>, "defint", NoT), Field(B("X"), <<>>, "defstring", NoT), Field(B("Y"), <<>>, "deffloat", NoT), Field(B("Y"), <<>>, "defbool", NoT) >>
+           Field(B("X"), <<>>, "defint", NoT), Field(B("X"), <<>>, "defstring", NoT), Field(B("Y"), <<>>, "deffloat", NoT), Field(B("Y"), <<>>, "defbool", NoT),
+           Field(B("z"), B("foo_bar"), "int", NoT) >>                          \* an unexported field that carries a tag
 Idx == 1..Len(Pool)
 Distinct(is) == \A i, j \in 1..Len(is) : i < j => (is[i] < is[j] /\ Pool[is[i]].go # Pool[is[j]].go)
 TOf(is, tn) == [tname |-> tn, fields |-> [i \in 1..Len(is) |-> Pool[is[i]]]]
-Esc == <<113, 34, 92, 10, 9, 195, 169, 35>>      \* q " \ LF TAB e-acute # : a string value that needs every escape class
+Esc == <<113, 34, 92, 10, 9, 195, 169, 35, 239, 191, 189>>      \* q " \ LF TAB e-acute # U+FFFD : a string value that needs every escape class (and holds the replacement character itself)
 Vals == { IntV(1), StrV(B("s")), NilV, FloatV(5, 2), BoolV(TRUE), AtomV("int", "maxint"), AtomV("float", "maxfloat"),
           IntV(0), IntV(-5), StrV(<<>>), StrV(Esc), FloatV(-5, 2), V("float", 0, 1, <<>>, ""), BoolV(FALSE), AtomV("int", "minint"), AtomV("float", "tinyfloat") }
 ValsQ == { IntV(1), StrV(B("s")), NilV, FloatV(5, 2), BoolV(TRUE) }
@@ -43,7 +46,8 @@ EntsPool == { Ent(B(k), v) : k \in Keys, v \in (IF Small THEN {IntV(1), StrV(B("
               \cup { Ent(B("x"), StrV(Esc)), Ent(B("foo_bar"), IntV(-5)), Ent(B("y"), StrV(<<>>)) }
               \cup { EntB(B("inner"), InnerBlk(<<>>)), EntB(B("inner.n"), InnerBlk(B("n"))),
                      EntB(B("any"), [type |-> B("any"), name |-> <<>>, ents |-> << Ent(B("x"), IntV(7)) >>]),
-                     EntB(B("inner.v1.2"), InnerBlk(<<118, 49, 46, 50>>)) }                                     \* a nested block named v1.2: the key is cut at the first dot   \* a nested block aimed at an interface field
+                     EntB(B("inner.v1.2"), InnerBlk(<<118, 49, 46, 50>>)),
+                     EntB(B("flags"), [type |-> B("flags"), name |-> <<>>, ents |-> <<>>]) }                    \* an empty nested block for a struct without fields                                     \* a nested block named v1.2: the key is cut at the first dot   \* a nested block aimed at an interface field
 DistinctKeys(es) == \A i, j \in 1..Len(es) : i # j => es[i].k # es[j].k
 
 VARIABLES d, tn, blk, phase, tk, bk, nblk
@@ -54,7 +58,7 @@ AddField == /\ Scope = "fields" /\ phase = 0 /\ Len(d) < MaxFields
             /\ \E i \in Idx : Distinct(Append(d, i)) /\ d' = Append(d, i)
             /\ UNCHANGED <<tn, blk, phase, tk, bk, nblk>>
 PickName == /\ Scope = "fields" /\ phase = 0 /\ d # <<>>
-            /\ \E nm \in {<<>>, B("n"), <<113, 34, 92, 10, 9, 195, 169>>} : blk' = [type |-> B("t"), name |-> nm, ents |-> <<>>] /\ tn' = <<>>
+            /\ \E nm \in {<<>>, B("n"), <<113, 34, 92, 10, 9, 195, 169, 239, 191, 189>>} : blk' = [type |-> B("t"), name |-> nm, ents |-> <<>>] /\ tn' = <<>>
             /\ phase' = 1 /\ UNCHANGED <<d, tk, bk, nblk>>
 AddEnt == /\ Scope = "fields" /\ phase \in {1, 2}
           /\ \E e \in EntsPool : DistinctKeys(Append(blk.ents, e)) /\ blk' = [blk EXCEPT !.ents = Append(@, e)]
@@ -63,9 +67,9 @@ AddEnt == /\ Scope = "fields" /\ phase \in {1, 2}
 TKinds == {"ptr-struct", "ptr-slice", "nil", "struct", "nilptr-struct", "nilptr-slice", "ptr-int", "ptr-string", "ptr-map", "ptr-slice-int",
            "ptr-slice-ptr", "ptr-ptr-struct", "slice", "ptr-array", "ptr-iface", "ptr-func", "ptr-chan"}
 \* (descriptor, type name): anonymous struct types and the declared types of the harness catalogue
-TDescs == { <<<<1, 3>>, <<>>>>, <<<<3>>, <<>>>>, <<<<2, 3>>, <<>>>>, <<<<1, 3>>, B("T")>>, <<<<3>>, B("FooBar")>>, <<<<1, 4>>, B("Srv")>>,
-            <<<<24, 25>>, B("Conf")>>, <<<<26, 25>>, B("Conf")>>,
-            <<<<23, 24>>, <<>>>>, <<<<23, 24, 25>>, <<>>>> }        \* an embedded struct in front of a tagged field (and of a field the tag could be confused with)    \* two declared types of the same name, one with a tag
+TDescs == { <<<<2, 4>>, <<>>>>, <<<<4>>, <<>>>>, <<<<3, 4>>, <<>>>>, <<<<2, 4>>, B("T")>>, <<<<4>>, B("FooBar")>>, <<<<2, 5>>, B("Srv")>>,
+            <<<<25, 26>>, B("Conf")>>, <<<<27, 26>>, B("Conf")>>,
+            <<<<24, 25>>, <<>>>>, <<<<24, 25, 26>>, <<>>>> }        \* an embedded struct in front of a tagged field (and of a field the tag could be confused with)    \* two declared types of the same name, one with a tag
 TBlocks == { [type |-> B(ty), name |-> nm, ents |-> es] : ty \in {"t", "foo_bar", "srv", "conf"}, nm \in {<<>>, B("n")},
              es \in { <<>>, <<Ent(B("x"), IntV(1))>>, <<Ent(B("x"), StrV(B("s")))>>, <<Ent(B("y"), IntV(1))>>, <<Ent(B("listen"), IntV(1))>>,
                       <<Ent(B("port"), IntV(1)), Ent(B("listen"), IntV(7))>> } }
